@@ -127,6 +127,8 @@ def composite_uses(repo: Repo, rep: Report, rule: str, table) -> None:
 
 # subscribe sites that legitimately do not forward the subscription-time scheduler (confirmed by reading)
 SCHED_EXEMPT = {
+    ("reactivex/internal/utils.py", "add_ref.subscribe"):
+        "add_ref is only applied to window Subjects (every call site passes a Subject local); a Subject ignores the scheduler",
     ("reactivex/observable/connectableobservable.py", "ConnectableObservable.auto_connect.subscribe"):
         "subscribes to the connectable's subject; a Subject ignores the scheduler",
     ("reactivex/observable/defer.py", "defer_.subscribe"):
